@@ -86,6 +86,10 @@ static CO_ERR COTSyncCycleWrite(struct CO_OBJ_T *obj, struct CO_NODE_T *node, vo
 
     /* Reactivate sync producer with new cycle value */
     if ((sync->CobId & CO_SYNC_COBID_ON) != 0) {
+        /* the result of an earlier activation is out of interest */
+        if (node->Error == CO_ERR_SYNC_RES) {
+            node->Error = CO_ERR_NONE;
+        }
         COSyncProdActivate(sync);
         if (node->Error == CO_ERR_SYNC_RES) {
             /*
